@@ -12,7 +12,7 @@ from ..harness import World, execute, place_summary, probe, violation
 LEVEL = "exploration"
 PLAN = {
     "quick": {"mem": 1200, "redis": 300, "rabbit": 300},
-    "thorough": {"mem": 100000, "redis": 25000, "rabbit": 25000},
+    "thorough": {"mem": 40000, "redis": 8000, "rabbit": 8000},
 }
 BUDGET = {"quick": 50, "thorough": 900}
 RULE = (
